@@ -213,6 +213,9 @@ type Case struct {
 	Defs        Defs     `json:"defs"`
 	Blocks      []BlkJ   `json:"blocks"`
 	Queries     []QueryJ `json:"queries"`
+	// BestTip (index into Blocks): the active-chain view is positioned there
+	// before the queries (nil: no active chain at all)
+	BestTip *int `json:"best_chain_tip,omitempty"`
 }
 
 type mismatch struct {
@@ -231,6 +234,9 @@ func runCase(c *Case) (out []mismatch) {
 		t.add(idx(b.Parent), b.Version, b.Time, b.Nonce)
 	}
 	v := t.view(c.Defs, c.Threshold, 0)
+	if c.BestTip != nil {
+		v.VerifC14SetTip(t.nodes[idx(*c.BestTip)])
+	}
 	net := refbip9.Net{Window: W, Threshold: c.Threshold}
 	var rdefs []refbip9.Def
 	for s := 0; s < nSlots; s++ {
